@@ -160,9 +160,9 @@ func (v *vis) decoy() visitor.VisitFunc {
 }
 
 // forms of registering the same logical visitor
-const nForms = 6
+const nForms = 8
 
-var formNames = []string{"generic", "kind-enter-leave", "kind-func+leave", "enter/leave-kind-maps", "generic-over-kindmaps", "kindfuncmap-over-generic"}
+var formNames = []string{"generic", "kind-enter-leave", "kind-func+leave", "enter/leave-kind-maps", "generic-over-kindmaps", "kindfuncmap-over-generic", "sparse-kindfuncmap", "sparse-enter/leave-kind-maps"}
 
 func (v *vis) options(form int) *visitor.VisitorOptions {
 	o := &visitor.VisitorOptions{}
@@ -220,8 +220,41 @@ func (v *vis) options(form int) *visitor.VisitorOptions {
 			}
 		}
 		o.Enter, o.Leave = mk(false), mk(true)
+	case 6:
+		// functions for some kinds only, nothing for the others
+		o.KindFuncMap = map[string]visitor.NamedVisitFuncs{}
+		for k := range sparseKinds(6) {
+			o.KindFuncMap[k] = visitor.NamedVisitFuncs{Enter: v.cb(false), Leave: v.cb(true)}
+		}
+	case 7:
+		o.EnterKindMap, o.LeaveKindMap = map[string]visitor.VisitFunc{}, map[string]visitor.VisitFunc{}
+		for k := range sparseKinds(7) {
+			o.EnterKindMap[k], o.LeaveKindMap[k] = v.cb(false), v.cb(true)
+		}
 	}
 	return o
+}
+
+// sparseKinds: the kinds a sparse form registers functions for (nil = every kind).
+func sparseKinds(form int) map[string]bool {
+	var out map[string]bool
+	switch form {
+	case 6:
+		out = map[string]bool{}
+		for i, k := range allKinds {
+			if i%2 == 1 {
+				out[k] = true
+			}
+		}
+	case 7:
+		out = map[string]bool{}
+		for i, k := range allKinds {
+			if i%3 == 0 {
+				out[k] = true
+			}
+		}
+	}
+	return out
 }
 
 // ---- M-visit: the reference walk ----
@@ -230,6 +263,9 @@ type model struct {
 	decisions []int
 	events    []event
 	broke     bool
+	// reg: the kinds the visitor has functions for (nil = all); other nodes are walked
+	// without a callback
+	reg map[string]bool
 }
 
 func (m *model) decide() int {
@@ -244,13 +280,16 @@ func (m *model) walk(n ast.Node, key interface{}, parent ast.Node, path []interf
 	if m.broke {
 		return
 	}
-	m.events = append(m.events, event{node: n, key: key, parent: parent, path: append([]interface{}{}, path...), ancestors: append([]ast.Node{}, anc...)})
-	switch m.decide() {
-	case actBreak:
-		m.broke = true
-		return
-	case actSkip:
-		return
+	called := m.reg == nil || m.reg[n.GetKind()]
+	if called {
+		m.events = append(m.events, event{node: n, key: key, parent: parent, path: append([]interface{}{}, path...), ancestors: append([]ast.Node{}, anc...)})
+		switch m.decide() {
+		case actBreak:
+			m.broke = true
+			return
+		case actSkip:
+			return
+		}
 	}
 	childAnc := append(append([]ast.Node{}, anc...), parent)
 	for _, c := range astx.Children(n) {
@@ -275,14 +314,17 @@ func (m *model) walk(n ast.Node, key interface{}, parent ast.Node, path []interf
 	if m.broke {
 		return
 	}
+	if !called {
+		return
+	}
 	m.events = append(m.events, event{leave: true, node: n, key: key, parent: parent, ancestors: append([]ast.Node{}, anc...)})
 	if m.decide() == actBreak {
 		m.broke = true
 	}
 }
 
-func expected(root ast.Node, decisions []int) []event {
-	m := &model{decisions: decisions}
+func expected(root ast.Node, decisions []int, reg map[string]bool) []event {
+	m := &model{decisions: decisions, reg: reg}
 	m.walk(root, nil, nil, nil, nil)
 	return m.events
 }
@@ -316,6 +358,7 @@ func modes(thorough bool) []mode {
 	ms = append(ms, mode{"parallel(generic,generic)", []int{0, 0}})
 	ms = append(ms, mode{"parallel(kind,maps)", []int{1, 3}})
 	ms = append(ms, mode{"parallel(1)", []int{0}})
+	ms = append(ms, mode{"parallel(sparse,sparse-maps)", []int{6, 7}})
 	if thorough {
 		ms = append(ms, mode{"parallel(generic,kindfunc,maps)", []int{0, 2, 3}})
 	}
@@ -358,7 +401,7 @@ func execute(x *explore.X, doc *ast.Document, md mode) outcome {
 	}
 	h := uint64(14695981039346656037)
 	for i, v := range vs {
-		exp := expected(doc, v.decisions)
+		exp := expected(doc, v.decisions, sparseKinds(md.forms[i]))
 		if d := diff(exp, v.events); d != "" && out.bad == "" {
 			out.bad = fmt.Sprintf("visitor %d (%s): %s", i, formNames[md.forms[i]], d)
 		}
